@@ -41,6 +41,10 @@ properties! {
     "C05" => c05,
     "C06" => c06,
     "C07" => c07,
+    "C08" => c08,
+    "C09" => c09,
+    "C15" => c15,
+    "C18" => c18,
 }
 
 pub fn selftest() -> i32 {
